@@ -104,16 +104,17 @@ Print Assumptions C01_kernels_keep_operand_order.
 
 (* 7. C01 holds for the implementation model outside the known-finding class: arms + kernels compute
       exactly the specification, for every scalar function, kernel flavour, shape and element list. *)
-Theorem C01_holds : forall (A X : Type) (dflt : X) (vk : vkern) (f : A -> A -> option X) (a b : operand A),
+Theorem C01_holds : forall (A X : Type) (dflt : X) (vk : vkern) (sc : A -> option X) (f : A -> A -> option X)
+                          (a b : operand A),
   owf a = true -> owf b = true -> pos_shape (oshape a) -> pos_shape (oshape b) ->
-  kf_samevec vk a b = false -> ibop dflt vk f a b = bop f a b.
+  kf_samevec vk sc a b = false -> ibop dflt vk sc f a b = bop f a b.
 Proof. exact (@ibop_eq_bop). Qed.
 Print Assumptions C01_holds.
 
 (* 8. The class consists of incompatible shapes only ... *)
-Theorem C01_kf_class_incompatible : forall (A : Type) (vk : vkern) (a b : operand A),
+Theorem C01_kf_class_incompatible : forall (A X : Type) (vk : vkern) (sc : A -> option X) (a b : operand A),
   pos_shape (oshape a) -> pos_shape (oshape b) ->
-  kf_samevec vk a b = true -> bshape (oshape a) (oshape b) = None.
+  kf_samevec vk sc a b = true -> bshape (oshape a) (oshape b) = None.
 Proof. exact (@kf_samevec_incompatible). Qed.
 Print Assumptions C01_kf_class_incompatible.
 
@@ -122,8 +123,8 @@ Print Assumptions C01_kf_class_incompatible.
 Theorem C01_refuted_samevec_shape_unchecked :
   exists (a b : operand Z) (v : operand Z),
     owf a = true /\ owf b = true /\ pos_shape (oshape a) /\ pos_shape (oshape b) /\
-    bshape (oshape a) (oshape b) = None /\ kf_samevec VZip a b = true /\
-    ibop 0%Z VZip (fun x y => Some (x * y)%Z) a b = Some v.
+    bshape (oshape a) (oshape b) = None /\ kf_samevec VZip (fun _ : Z => @None Z) a b = true /\
+    ibop 0%Z VZip (fun _ => None) (fun x y => Some (x * y)%Z) a b = Some v.
 Proof. exact refuted_samevec. Qed.
 Print Assumptions C01_refuted_samevec_shape_unchecked.
 
@@ -269,7 +270,7 @@ Example C01_example_col_broadcast :
   bshape (oshape a) (oshape b) = Some (Mx 3 4) /\ dispatch (oshape a) (oshape b) = Some AVM /\
   bop (sopf Sub (KInt true 32)) a b
   = Some (OM (Mat 3 4 [Zx 99; Zx 198; Zx 297; Zx 96; Zx 195; Zx 294; Zx 93; Zx 192; Zx 291; Zx 90; Zx 189; Zx 288])) /\
-  ibop (Zx 0) VStrict (sopf Sub (KInt true 32)) a b = bop (sopf Sub (KInt true 32)) a b.
+  ibop (Zx 0) VStrict (sc_of Sub) (sopf Sub (KInt true 32)) a b = bop (sopf Sub (KInt true 32)) a b.
 Proof. vm_compute. repeat split; reflexivity. Qed.
 Print Assumptions C01_example_col_broadcast.
 
@@ -298,6 +299,11 @@ Example C01_example_judge :
   run_line "((ew mul u8 (1 4) (1 3) ((0 0) (1 1) (2 2))) (multi (tuple (m u8 1 4 (1 2 3 4)) (m u8 1 3 (1 2 3))) (m u8 1 4 (1 4 9 0)) (s u8 1) (s u8 4) (s u8 9)))"
   = "(kf samevec-shape-unchecked)" /\
   run_line "((ew mul u8 (1 4) (1 3) ((0 0) (1 1) (2 2))) (multi (tuple (m u8 1 4 (1 2 3 4)) (m u8 1 3 (1 2 3))) (m u8 1 4 (1 4 9 7)) (s u8 1) (s u8 4) (s u8 9)))"
-  = "(bad incompatible-shapes-accepted err)".
+  = "(bad incompatible-shapes-accepted err)" /\
+  (* `||` on a 1x3 and a 1x2: rhs[2] is never read because lhs[2] is true (short-circuit) — still the known class *)
+  run_line "((ew or bool (1 3) (1 2) ((0 0) (1 1))) (multi (tuple (m bool 1 3 (0 0 1)) (m bool 1 2 (1 0))) (m bool 1 3 (1 0 1)) (s bool 1) (s bool 0)))"
+  = "(kf samevec-shape-unchecked)" /\
+  (* the harness lost the process: never silently accepted *)
+  run_line "((ew add u8 s s ((0 0))) (abort -9))" = "(bad no-observation (abort -9))".
 Proof. vm_compute. repeat split; reflexivity. Qed.
 Print Assumptions C01_example_judge.
